@@ -72,11 +72,11 @@ theorem requestTerminate_accepted (s : EState) (k r : String) (hi : s.state ≠ 
     obtain ⟨b1, b2⟩ := a6 hp'
     exact ⟨b1, b2.trans (j1.trans p5)⟩
 
-/-- a refused abort()/stop()/halt() (TransitionError): `_interrupted`, and for abort the reason and the
-    exit status, were already stored -/
+/-- a refused abort()/stop()/halt() (TransitionError) records nothing but the refusal: the state assignment is the
+    first thing the request coroutines do -/
 theorem requestTerminate_refused (s : EState) (k r : String) (hi : s.state ≠ .idle)
     (ht : (Src.transitions s.state).contains (termTarget k).1 = false) :
-    requestTerminate s k r = refuse (termPrep s k r) k := by
+    requestTerminate s k r = refuse s k := by
   have hidle : (s.state == .idle) = false := by simpa using hi
   have p1 := (termPrep_fields s k r).1
   have : setState (termPrep s k r) (termTarget k).1 = .error .transitionError := by
